@@ -4,7 +4,7 @@ from lib import E
 from props import conn_common as cc
 
 RULE = ("random histories of protected sends (AARQ, RLRQ, GET, SET, ACTION), HLS replies and receives, 10..60 operations (thorough: "
-        "up to 300), on keyed connections of every suite, starting client counters 0, 1, 7 and 2^32-3 (so the counter runs into "
+        "up to 150), on keyed connections of every suite, starting client counters 0, 1, 7 and 2^32-3 (so the counter runs into "
         "the 32-bit limit) and starting meter counters 0, 5 and 2^32-3; received counters in every order: increasing, equal to "
         "the last accepted, duplicates (the recorded APDU delivered again), decreasing runs, 0 and 2^32-1; each history runs on "
         "the implementation with the AES-GCM primitive wrapped to record the nonces actually passed to it, and on the "
@@ -36,7 +36,7 @@ def history(r, ctx, suite, cic, mic, n):
     ek, ak = cc.keys(suite)
     pre = r.random() < .5
     k = cc.cfg(ek=ek, ak=ak, suite=suite, pre=pre)
-    c = cc.cst(state=2 if pre else r.choice([0, 2, 9]), cic=cic, mic=mic, mtitle=cc.METER_TITLE, auth=5, mchallenge=cc.CHALLENGE_M)
+    c = cc.cst(state=2 if pre else r.choice([0, 1, 2, 3, 9]), cic=cic, mic=mic, mtitle=cc.METER_TITLE, auth=5, mchallenge=cc.CHALLENGE_M)
     peer = cc.Peer(True, suite=suite, ic=mic + 1, ek=ek, ak=ak)
     ops, recorded, last = [], [], mic
     for _ in range(n):
@@ -46,6 +46,15 @@ def history(r, ctx, suite, cic, mic, n):
                                      cc.aarq_v(cc.CONF_C, 65535, cc.CLIENT_TITLE, 5, cc.CHALLENGE_C, True)])])
         elif x < .55:
             ops.append([2])
+        elif x < .63:
+            # an association / release response, possibly from another meter that shares the keys, with a fresh, equal or old counter
+            title = r.choice([cc.METER_TITLE, cc.METER_TITLE, b"METER002"])
+            ic = r.choice([last + 1, last + 3, last, max(0, last - 1), 0])
+            other = cc.Peer(True, suite=suite, ic=min(ic, 4294967295), ek=ek, ak=ak, title=title)
+            b = other.aare(hls=r.random() < .5) if r.random() < .7 else rlre_ciphered(other)
+            recorded.append(b)
+            ops.append([1, b])
+            last = max(last, min(ic, 4294967295))
         else:
             kind = r.choice([8, 8, 10, 11, 13, 14, 15, 17])
             y = r.random()
@@ -69,12 +78,22 @@ def history(r, ctx, suite, cic, mic, n):
     return k, c, ops
 
 
+def rlre_ciphered(peer):
+    from dlms_cosem.protocol import acse, xdlms
+    from dlms_cosem import enumerations as en, security
+    ir = xdlms.InitiateResponse(xdlms.Conformance(general_protection=True, get=True), 1200)
+    ic = peer.ic
+    peer.ic += 1
+    ct = security.encrypt(peer.sc(), peer.title, ic, peer.ek, ir.to_bytes(), peer.ak)
+    return acse.ReleaseResponse(en.ReleaseResponseReason.NORMAL, acse.UserInformation(xdlms.GlobalCipherInitiateResponse(peer.sc(), ic, ct))).to_bytes()
+
+
 def run(ctx):
     r = lib.rng("C06")
     hs = []
-    for i in range(ctx.scale(60, 400)):
+    for i in range(ctx.scale(60, 160)):
         suite = i % 3
-        hs.append(history(r, ctx, suite, r.choice([0, 1, 7, 4294967293]), r.choice([0, 5, 4294967293]), r.randrange(10, ctx.scale(60, 300))))
+        hs.append(history(r, ctx, suite, r.choice([0, 1, 7, 4294967293]), r.choice([0, 5, 4294967293]), r.randrange(10, ctx.scale(60, 150))))
     for s, c0, m0 in ((0, 0, 0), (1, 4294967290, 4), (2, 5, 4294967000)):
         k, c, ops, _ = cc.hls_session(suite=s, cic=c0, mic=m0, meter_ic=m0 + 1)
         hs.append((k, c, ops))
@@ -161,11 +180,12 @@ def received_counter(b):
         n, rest = decode_variable_integer(b[2 + b[1]:])
         return int.from_bytes(rest[1:5], "big")
     if b[0] in (0x61, 0x63):
-        i = b.find(b"\xbe")
-        j = b.find(b"\x28", i)
-        if i >= 0 and j >= 0:
-            n, rest = decode_variable_integer(b[j + 1:])
-            return int.from_bytes(rest[1:5], "big")
+        from props import C02
+        back = C02.impl("aare_from_bytes" if b[0] == 0x61 else "rlre_from_bytes", b)
+        if isinstance(back, E):
+            return None
+        user = back[7] if b[0] == 0x61 else back[1]
+        return user[2] if user and user[0] == 19 else None
     return None
 
 
